@@ -44,6 +44,7 @@ ASSUMPTIONS = ["client disconnect = end of file on the daemon's standard input a
                "checks run as root in the sandbox; identity is virtualised by the LD_PRELOAD shim"]
 
 KNOWN_SIGS = ("qmtpd_rcpt_length_nondigit",)
+FIXED_IN_REPO = True   # qmail-qmtpd.c recipient-length digit test added by fix: commit 3cc662c (see known-findings.txt)
 # set by run()/replay(): signatures listed in known-findings.txt (then generated and suppressed) - otherwise excluded by construction
 LISTED = set()
 
@@ -87,6 +88,8 @@ def nsr(data, fid, mut):
 def norm_mut(daemon, m, excl):
     """Keep generation out of the listed-or-excluded defect class: a non-digit inside the length of a *recipient* netstring of QMTP."""
     mut = m.get("fmut")
+    if FIXED_IN_REPO:
+        return mut          # defect repaired by fix: 3cc662c - the class is generated like any other and nothing is suppressed
     if mut and daemon == "qmtpd" and mut["k"] == "nondigit" and isinstance(mut.get("f"), int) and "qmtpd_rcpt_length_nondigit" not in LISTED:
         excl["excluded_qmtpd_rcpt_length_nondigit"] = excl.get("excluded_qmtpd_rcpt_length_nondigit", 0) + 1
         mut = dict(mut, f="R")
